@@ -37,6 +37,9 @@ def sim_plan_st(draw, tier, ctx=None, want_absent_arms=False, max_bandits=3):
         else:
             cfg["lp"] = ["UCB1", {"alpha": 1}]
         cfg["arms"] = list(arms)
+        if i > 0 and draw(st.booleans()):
+            # the same arms listed in another order: the simulator takes its arm list from the first bandit only
+            cfg["arms"] = draw(gen.perm_st(arms))
         if cfg["np"] and cfg["np"][1].get("no_nhood_prob_of_arm"):
             cfg["np"][1]["no_nhood_prob_of_arm"] = draw(gen.prob_list_st(len(arms)))
         bandits.append({"name": "b%d" % i, "config": cfg})
